@@ -22,6 +22,7 @@ import (
 	"sort"
 	"strconv"
 	"strings"
+	"sync"
 	"time"
 
 	"github.com/coreos/go-semver/semver"
@@ -34,6 +35,9 @@ import (
 	"github.com/tikv/pd/server/core"
 	"github.com/tikv/pd/server/core/storelimit"
 	"github.com/tikv/pd/server/kv"
+
+	"go.etcd.io/etcd/clientv3"
+	"go.etcd.io/etcd/etcdserver/api/v3rpc/rpctypes"
 
 	"pdverif/internal/coqfmt"
 	"pdverif/internal/kvx14"
@@ -222,9 +226,12 @@ type world struct {
 	ruleUnknown bool
 	unknown     bool // some write of this case was applied but reported failed
 	// the real HTTP API handler (server/api) of this server, driven in-process
-	api    http.Handler
-	steps  []jstep // requests of the current API-path case
-	forced *jstep  // replay: send exactly this recorded request
+	api       http.Handler
+	steps     []jstep // requests of the current API-path case
+	forced    *jstep  // replay: send exactly this recorded request
+	flaky     *flakyKV
+	flakyBase kv.Base
+	onEtcd    bool
 }
 
 func group(key string) (string, bool) {
@@ -261,6 +268,11 @@ func newWorld() (*world, error) {
 		return nil, err
 	}
 	w.api = h
+	w.flaky = &flakyKV{KV: w.s.GetClient().KV}
+	fc := clientv3.NewCtxClient(context.Background())
+	fc.KV = w.flaky
+	// reads and removes go through the server's own etcd base; Save goes through the real etcdKVBase.Save code over the refusing client
+	w.flakyBase = splitBase{Base: w.etcdKV, save: kv.NewEtcdKVBase(fc, path.Join("/pd", strconv.FormatUint(w.s.ClusterID(), 10)))}
 	return w, nil
 }
 
@@ -335,9 +347,10 @@ func (w *world) wipeEtcd(prefix string) {
 
 // reset: a leader whose options (boot) were just persisted and whose cluster was just started.
 func (w *world) reset(boot conf, useEtcd bool) {
+	w.onEtcd = useEtcd
 	w.rc.Stop()
 	if useEtcd {
-		w.kb.Inner = w.etcdKV
+		w.kb.Inner = w.flakyBase // the server's own etcd base, built over a client whose KV can refuse puts
 		for _, p := range []string{"config", "rules/", "rule_group/", "replication_mode/"} {
 			w.wipeEtcd(p)
 		}
@@ -493,7 +506,7 @@ func (w *world) errRes(err error) string {
 	}
 	m := err.Error()
 	switch {
-	case strings.Contains(m, "injected storage fault"):
+	case strings.Contains(m, "injected storage fault"), strings.Contains(m, "etcdserver: leader changed"), strings.Contains(m, "ErrEtcdKVPut"):
 		return "RStorage"
 	case strings.Contains(m, "is not the client url of any member"):
 		return "RNotMember"
@@ -753,12 +766,10 @@ func (w *world) execAPI(r *rng.R, o op, tracked bool) snap {
 		return sn
 	}
 	before := w.fullServed()
-	plan := map[string]kvx14.Kind{}
-	if o.F.On {
-		plan[kvx14.PlanKey(o.F.G, o.F.Idx)] = []kvx14.Kind{kvx14.FailBefore, kvx14.FailAfter}[o.F.Kind]
-	}
+	plan := w.faultPlan(o.F)
 	w.kb.Arm(plan)
 	code, resp := w.post(path, body)
+	w.flaky.disarm()
 	w.kb.Arm(nil)
 	res := "ROk"
 	if code != http.StatusOK {
@@ -772,11 +783,91 @@ func (w *world) execAPI(r *rng.R, o op, tracked bool) snap {
 	return sn
 }
 
-func (w *world) exec(o op) snap {
-	plan := map[string]kvx14.Kind{}
-	if o.F.On {
-		plan[kvx14.PlanKey(o.F.G, o.F.Idx)] = []kvx14.Kind{kvx14.FailBefore, kvx14.FailAfter}[o.F.Kind]
+// ---------- faults below kv.Base: the etcd client answers "leader changed" ----------
+// On the etcd-backed base a "not applied" failure of the first config write is injected where it really happens: the etcd client
+// refuses the put (for as long as the operation lasts) with rpctypes.ErrLeaderChanged, the error etcd gives during a leader election.
+// etcdKVBase.Save has to hand that error up; the setters roll back exactly as for a failure injected at the kv.Base level.
+type flakyKV struct {
+	clientv3.KV
+	mu     sync.Mutex
+	suffix string
+	hits   int
+}
+
+func (f *flakyKV) arm(suffix string) { f.mu.Lock(); f.suffix, f.hits = suffix, 0; f.mu.Unlock() }
+func (f *flakyKV) disarm() {
+	if f == nil {
+		return
 	}
+	f.mu.Lock()
+	f.suffix = ""
+	f.mu.Unlock()
+}
+func (f *flakyKV) refuses(keys []string) bool {
+	f.mu.Lock()
+	defer f.mu.Unlock()
+	if f.suffix == "" {
+		return false
+	}
+	for _, k := range keys {
+		if strings.HasSuffix(k, f.suffix) {
+			f.hits++
+			return true
+		}
+	}
+	return false
+}
+func (f *flakyKV) Txn(ctx context.Context) clientv3.Txn { return &flakyTxn{Txn: f.KV.Txn(ctx), f: f} }
+
+type flakyTxn struct {
+	clientv3.Txn
+	f    *flakyKV
+	keys []string
+}
+
+func (t *flakyTxn) If(cs ...clientv3.Cmp) clientv3.Txn { t.Txn = t.Txn.If(cs...); return t }
+func (t *flakyTxn) Then(ops ...clientv3.Op) clientv3.Txn {
+	for _, o := range ops {
+		t.keys = append(t.keys, string(o.KeyBytes()))
+	}
+	t.Txn = t.Txn.Then(ops...)
+	return t
+}
+func (t *flakyTxn) Else(ops ...clientv3.Op) clientv3.Txn { t.Txn = t.Txn.Else(ops...); return t }
+func (t *flakyTxn) Commit() (*clientv3.TxnResponse, error) {
+	if t.f.refuses(t.keys) {
+		return nil, rpctypes.ErrLeaderChanged
+	}
+	return t.Txn.Commit()
+}
+
+type splitBase struct {
+	kv.Base
+	save kv.Base
+}
+
+func (b splitBase) Save(key, value string) error { return b.save.Save(key, value) }
+
+// faultPlan: the kvx14 plan of an operation's fault; on the etcd-backed base the "first config write not applied" fault goes to the etcd client instead
+func (w *world) faultPlan(f fault) map[string]kvx14.Kind {
+	plan := map[string]kvx14.Kind{}
+	if !f.On {
+		return plan
+	}
+	if w.onEtcd && w.flaky != nil && f.G == "config" && f.Idx == 0 && f.Kind == 0 {
+		w.flaky.arm("/config")
+		if w.R != nil {
+			w.R.Count("fault:etcd-client-refuses-the-config-put")
+		}
+		return plan
+	}
+	plan[kvx14.PlanKey(f.G, f.Idx)] = []kvx14.Kind{kvx14.FailBefore, kvx14.FailAfter}[f.Kind]
+	return plan
+}
+
+func (w *world) exec(o op) snap {
+	plan := w.faultPlan(o.F)
+	defer w.flaky.disarm()
 	w.kb.Arm(plan)
 	if o.F.On && o.F.Kind == 1 {
 		w.unknown = true
@@ -1368,6 +1459,35 @@ func (w *world) runWriters(boot conf, r *rng.R) freeRec {
 			Served: sn.Served, Reload: sn.Reload})
 	} else {
 		w.notes[fmt.Sprintf("overlap: the two updates answered %d / %d", codeA, codeB)] = true
+	}
+	// a store joins (PutStore -> AddStoreLimit) and the first write of its store limit fails: AddStoreLimit backs off 100 ms and tries
+	// again; an ordinary scheduling update is accepted inside that window: it must still be there after the retry
+	w.kb.Arm(map[string]kvx14.Kind{kvx14.PlanKey("config", 0): kvx14.FailBefore})
+	donePut := make(chan error, 1)
+	go func() {
+		donePut <- w.rc.PutStore(&metapb.Store{Id: uint64(40 + r.Intn(5)), Address: fmt.Sprintf("joining-%d", r.Intn(1000)), Version: "4.0.0"})
+	}()
+	dl := time.Now().Add(3 * time.Second)
+	for len(w.kb.Entries()) == 0 && time.Now().Before(dl) {
+		time.Sleep(time.Millisecond)
+	}
+	want := w.snapshot("ROk").Served
+	want.Sched.Tol = []int64{50, 1250, 5000}[r.Intn(3)]
+	if want.Sched.Tol == sn.Served.Sched.Tol {
+		want.Sched.Tol += 10
+	}
+	bodyU := mustJSON(map[string]interface{}{"schedule.tolerant-size-ratio": float64(want.Sched.Tol) / 1000})
+	codeU, _ := w.post("/config", bodyU)
+	if err := <-donePut; err != nil {
+		w.notes["store-limit retry: PutStore failed: "+err.Error()] = true
+	}
+	w.kb.Arm(nil)
+	fin := w.snapshot("ROk")
+	if codeU == http.StatusOK {
+		want.Limits = fin.Served.Limits // the joining store's limit is the other, intended, change
+		w.steps = append(w.steps, jstep{Path: "update-during-store-limit-retry", Body: "PutStore (1st store-limit write fails, 100 ms back-off) || POST /config " + string(bodyU), Code: 200, Res: "ROk",
+			Served: fin.Served, Reload: want})
+		w.steps = append(w.steps, jstep{Path: "after-store-limit-retry", Code: 200, Res: "ROk", Before: w.fullServed(), After: w.fullServed(), Served: fin.Served, Reload: fin.Reload})
 	}
 	for range w.steps {
 		f.Ops = append(f.Ops, op{K: "other-writers"})
